@@ -196,6 +196,38 @@ fn single_history(rep: &mut Report, rng: &mut Rng, idx: u64) {
     }
 }
 
+/// The log path leads to a device that accepts the open and refuses every write (ENOSPC): no append may be
+/// acknowledged, because nothing it wrote can be read back.
+fn full_device(rep: &mut Report, rng: &mut Rng, idx: u64) {
+    if !std::path::Path::new("/dev/full").exists() {
+        return;
+    }
+    let sc = Scratch::new("c04f");
+    let path = sc.join("app.log");
+    if std::os::unix::fs::symlink("/dev/full", &path).is_err() {
+        return;
+    }
+    let (enc, nl, enc_name) = pick_encoder(rng);
+    let app = match FileAppender::builder().encoder(enc).build(&path) {
+        Ok(a) => a,
+        Err(_) => return, // refusing to open it is fine too
+    };
+    let mut sizes = vec![];
+    for seq in 0..(1 + rng.usize_below(6)) as u32 {
+        let len = *rng.pick(&[1usize, 10, 100, 1000, 1100, 3000]);
+        sizes.push(len);
+        let a = append_frame(&app, 1, seq, len, nl);
+        let _ = take_panic();
+        rep.count("appends_to_a_full_device", 1);
+        if a.ok {
+            rep.violation("C04:acknowledged-although-the-write-failed", json!({"encoder": enc_name, "record_sizes": sizes,
+                "what": "the log path is a link to /dev/full (every write fails with ENOSPC), yet append returned Ok"}));
+            return;
+        }
+    }
+    rep.case(&format!("full|{}|{:?}|{}", enc_name, sizes, idx), true);
+}
+
 /// Two live appenders on the same path (e.g. two generations of a configuration), used one after the
 /// other: every acknowledged record must stay readable, in the order of the calls.
 fn two_appenders(rep: &mut Report, rng: &mut Rng, idx: u64) {
@@ -351,6 +383,7 @@ pub fn run(rep: &mut Report) {
     let thorough = rep.tier == "thorough";
     run_cases(rep, "single", if thorough { 6000 } else { 1500 }, single_history);
     run_cases(rep, "two", if thorough { 2000 } else { 300 }, two_appenders);
+    run_cases(rep, "full-device", if thorough { 400 } else { 60 }, full_device);
     // concurrent runs use many threads themselves: run them a few at a time
     let n = if thorough { 300 } else { 60 };
     let saved = std::env::var("L4V_JOBS").ok();
